@@ -61,7 +61,7 @@ def enumerate_states(tier, seed):
 # frame, d = a copy of b shifted by a few millimetres) the frame it is currently expressed in and which caches are filled
 # (every non-None private attribute, so a newly introduced cache enlarges the state space instead of hiding in it).
 # Transitions = contact_forces / contact_forces(return_details=True) / find_contact_surface(use_aabb_trees=True) on the
-# ordered pairs with contact.  Breadth-first search with canonical-state de-duplication; on every transition the result
+# ordered pairs with contact, and an in-place pose update `rb.body2origin_[:3, 3] += v` of body a or b (once each).  Breadth-first search with canonical-state de-duplication; on every transition the result
 # must equal the result of the same call on freshly built bodies (1e-6 relative) and afterwards every filled cache of every
 # body must equal the value recomputed from its vertices.
 
@@ -151,35 +151,65 @@ def run_hist(desc):
             seen.add(v["sig"])
             viol.append(v)
 
-    def fresh():
-        return {n: hydro.make_body(f, T) for n, (f, T) in poses.items()}
-    ops = [(fl, pr) for pr in HIST_PAIRS for fl in HIST_FLAVOURS]
-    ref = {}
-    for op in ops:
-        try:
-            ref[op] = _hist_apply(fresh(), ("cf" if op[0] == "cfd" else "fsb" if op[0] == "fst" else op[0], op[1]))
-        except Exception as e:  # noqa
-            return {"viol": [_viol("contact_forces", "exception_on_fresh_bodies:" + type(e).__name__, cls, {"op": op, "exc": repr(e)[:300]})], "n_eval": 1}
-    n_eval = len(ops)
+    MOVE = np.array([0.01, -0.005, -0.01])     # in-place pose update `rb.body2origin_[:3, 3] += v * dt` as the example scripts do it
+    MOVABLE = ("a", "b")
+
+    def fresh(moved=()):
+        out = {}
+        for n, (f, T) in poses.items():
+            T2 = np.array(T, dtype=float)
+            if n in moved:
+                T2[:3, 3] += MOVE
+            out[n] = hydro.make_body(f, np.ascontiguousarray(T2))
+        return out
+    calls = [(fl, pr) for pr in HIST_PAIRS for fl in HIST_FLAVOURS]
+    ops = calls + [("mv", x) for x in MOVABLE]
+    ref_cache = {}
+
+    def ref_of(op, moved):
+        k = (op, moved)
+        if k not in ref_cache:
+            ref_cache[k] = _hist_apply(fresh(moved), ("cf" if op[0] == "cfd" else "fsb" if op[0] == "fst" else op[0], op[1]))
+        return ref_cache[k]
+    try:
+        for op in calls:
+            ref_of(op, ())
+    except Exception as e:  # noqa
+        return {"viol": [_viol("contact_forces", "exception_on_fresh_bodies:" + type(e).__name__, cls, {"exc": repr(e)[:300]})], "n_eval": 1}
+    n_eval = len(calls)
     init = fresh()
-    frontier = [([], init)]
-    visited = {_hist_key(init)}
+    frontier = [([], init, ())]
+    visited = {_hist_key(init) + repr(())}
     n_trans, depth_done = 0, 0
     contact_ops = 0
     for depth in range(1, desc["depth"] + 1):
         nxt = []
-        for hist, bodies in frontier:
+        for hist, bodies, moved in frontier:
             for op in ops:
+                if op[0] == "mv":
+                    if op[1] in moved:
+                        continue      # every body is moved at most once (two positions per body)
+                    b2 = copy.deepcopy(bodies)
+                    b2[op[1]].body2origin_[:3, 3] += MOVE
+                    m2 = tuple(sorted(moved + (op[1],)))
+                    h2 = hist + ["move_in_place(%s)" % op[1]]
+                    n_trans += 1
+                    k = _hist_key(b2) + repr(m2)
+                    if k not in visited:
+                        visited.add(k)
+                        nxt.append((h2, b2, m2))
+                    continue
                 b2 = copy.deepcopy(bodies)
+                m2 = moved
                 h2 = hist + ["%s(%s,%s)" % (op[0], op[1][0], op[1][1])]
                 try:
                     res = _hist_apply(b2, op)
+                    r0 = ref_of(op, moved)
                 except Exception as e:  # noqa
                     add(_viol("contact_forces", "exception_history:" + type(e).__name__, cls, {"history": h2, "exc": repr(e)[:300]}))
                     continue
                 n_trans += 1
                 n_eval += 1
-                r0 = ref[op]
                 if "w12" in res:
                     f = max(float(np.linalg.norm(r0["w12"][:3])), 1e-300)
                     ts = max(float(np.linalg.norm(r0["w12"][3:])), float(np.linalg.norm(r0["w21"][3:])), f)
@@ -201,10 +231,10 @@ def run_hist(desc):
                                    "missing": sorted(big0 - big1)[:5], "extra": sorted(big1 - big0)[:5]}))
                 for n, what in _hist_cache_check(b2):
                     add(_viol("RigidBody", "stale_cache:" + what, cls, {"history": h2, "body": n}))
-                k = _hist_key(b2)
+                k = _hist_key(b2) + repr(m2)
                 if k not in visited:
                     visited.add(k)
-                    nxt.append((h2, b2))
+                    nxt.append((h2, b2, m2))
         depth_done = depth
         frontier = nxt
         if not frontier:
@@ -214,7 +244,7 @@ def run_hist(desc):
             "hist": {"history_search": {"%s:distinct_states" % cls: len(visited), "%s:transitions" % cls: n_trans,
                                         "%s:%s" % (cls, "closed" if closed else "depth_%d" % depth_done): 1}},
             "sample": {"desc": desc, "distinct_states": len(visited), "transitions": n_trans, "closure_reached": closed,
-                       "operations": ["%s(%s,%s)" % (o[0], o[1][0], o[1][1]) for o in ops]} if desc["scene"] == 0 else None}
+                       "operations": ["%s(%s,%s)" % (o[0], o[1][0], o[1][1]) for o in calls] + ["move_in_place(%s)" % x for x in MOVABLE]} if desc["scene"] == 0 else None}
 
 
 def _viol(entry, kind, cls, detail):
